@@ -28,11 +28,11 @@ COMMITTED = {
     "dgram_push_cid": True,       # C12_dgram_push_cid.diff       connection_push.c: datagram backend never clears con->cid
     "dgram_shared_buf": True,     # C12_dgram_shared_buf.diff     outdata_push.c: outgoing message appended behind the datagram received before
     "assign_stream": True,        # C12_assign_stream.diff        connection_assign.c: first stream socket goes to mpt_stream_dopen(NULL, ...)
-    # round 3 (not committed yet: flip to True after the commit, nothing else)
-    "default_waiter_format": False,   # C12_default_waiter_format.diff  command_reserve.c: log_reply formats "%s (" PRIxPTR "): %s" - the id is printed as string (crash)
-    "stream_input_skip": False,       # C12_stream_input_skip.diff      stream_input.c: dispatch(NULL) consumes the message twice, every later dispatch fails
-    "dgram_next_pollout": False,      # C12_dgram_next_pollout.diff     output_remote.c: next(POLLOUT) sends the datagram received before back to the peer
-    "close_stream_dangling": False,   # C12_close_stream_dangling.diff  connection_fini.c: closed stream stays in out.buf; a datagram socket set afterwards uses it as buffer
+    # round 3 (committed: 80ffd0b, ea8dff5, d6c5a3a, 4a92b48)
+    "default_waiter_format": True,   # C12_default_waiter_format.diff  command_reserve.c: log_reply formats "%s (" PRIxPTR "): %s" - the id is printed as string (crash)
+    "stream_input_skip": True,       # C12_stream_input_skip.diff      stream_input.c: dispatch(NULL) consumes the message twice, every later dispatch fails
+    "dgram_next_pollout": True,      # C12_dgram_next_pollout.diff     output_remote.c: next(POLLOUT) sends the datagram received before back to the peer
+    "close_stream_dangling": True,   # C12_close_stream_dangling.diff  connection_fini.c: closed stream stays in out.buf; a datagram socket set afterwards uses it as buffer
 }
 
 
@@ -183,6 +183,21 @@ class C12(DiffProperty):
             "first/second/last byte against the rest + random combinations; each on stream and datagram (and assigned stream), dispatched "
             "without handler, answered at once, answered twice, left to the generic answer (code 0 / not 0), deferred and answered or "
             "released later (five messages per connection); the same alphabet for stream_input.c (sin) and in the random histories. "
+            "Round 3, the rest of the object of mpt_output_remote() (same con language): rf / cl (references: the last cl ends the "
+            "connection), a0 (await without handler: the default handler of mpt_command_reserve, answers of every message type it "
+            "distinguishes: Answer with code 0 / <0 / >0, short, Output, other, empty), answers that start with ff (the harness' answer "
+            "handler returns -3: dispatch result, early end of sync with table kept / compressed), no / nh (next(POLLOUT) / next(POLLHUP) on "
+            "both backends, also with a message half composed, a datagram received, a deferred handle alive), lg (mpt_log through the "
+            "logger interface: types 0,1..5,8,0x20,0x7f, text 0..40 bytes, also into an open message and with a datagram pending), "
+            "cv / gp (convert() for every type it knows + an unknown one, property \"\" and color), as / op / sp (another backend: "
+            "mpt_connection_assign with a datagram socket / stream socket / NULL, mpt_connection_open to a stream / datagram target, "
+            "the property \"\" with a socket, a target string or nothing - on an open stream, an open datagram socket, after a hang-up, "
+            "with requests in flight, deferred handles alive, a message half composed): 112 hand-written histories + 2500 random ones "
+            "(quick). rsv: direct calls of mpt_command_reserve(arr, max) for max = 0..9 and 16 (every arm of its switch) mixed with "
+            "released slots, the 127 ids of a one-byte header used up and re-used. sin additions: stream input with a write side "
+            "without queue (every reply fails), handler asking for a deferred handle (refused), dispatch without handler, convert / "
+            "addref / clone, 72 argument combinations of mpt_stream_input (id width 0/2/255/256/1000, modes, coding 0 / COBS, bad "
+            "descriptor). "
             "Only those whose behaviour does not depend on a patch of docs/C12_*.diff that is not yet committed are run "
             "(constant COMMITTED in props/c12.py). A case is non-trivial when it is an id case with id != 0, a history that arms at "
             "least one request, or a connection history; distinct = distinct case text")
@@ -200,14 +215,29 @@ class C12(DiffProperty):
                 "but not modelled (C01/C02/C13); the value returned by next() of the stream backend and the code for 'no message' "
                 "(MissingData or 0) are not compared; the property/conversion/log functions of output_remote.c (remoteConv, remoteProperty, "
                 "remoteSetProperty, remoteLog), a socket address part of datagrams (_smax, never set by the library) are outside the model; "
-                "mpt_connection_open / mpt_connection_assign / the encoding property set the connection up in the harness and are "
-                "executed, not modelled (the model starts from the open connection); the datagram backend keeps input and output in one "
-                "buffer (out.buf): modelled as two (what the code does WITH docs/C12_dgram_shared_buf.diff), a push while a received "
-                "datagram waits for its dispatch is refused with ActiveInput and the waiter is called with NULL (modelled as is); "
-                "next(POLLOUT) on the datagram backend is not called by the harness (on /repo it sends the datagram received before back "
-                "to the peer: same root cause, see docs/notes_C12.md). "
-                "mptio/stream/stream_input.c (streamMessage/streamReply + stream_reply.c) is modelled at correspondence level "
-                "only (sin_request, no theorem)")
+                "the datagram backend keeps input and output in one "
+                "buffer (out.buf): modelled as two, a push while a received "
+                "datagram waits for its dispatch is refused with ActiveInput and the waiter is called with NULL (modelled as is). "
+                "Round 3: the whole object is in the model - remoteRef / remoteUnref (count; the last release is mpt_connection_fini), "
+                "remoteAwait without handler (log_reply of command_reserve.c as handler with tag 0: returns 0, its log output is not "
+                "compared), the return value of answer handlers (streamWrapper hands it on, the datagram branch turns a negative one into "
+                "MissingBuffer, mpt_stream_sync ends its loop and keeps or compresses the table, remoteSync returns 0), remoteNext with "
+                "POLLOUT (AS PATCHED by docs/C12_dgram_next_pollout.diff: nothing) and POLLHUP (datagram: mpt_outdata_close - the "
+                "connection has no backend any more, requests in flight and reply context stay; stream: mpt_stream_poll, value not "
+                "compared), remoteLog = mpt_output_vlog as push + finish of the bytes it composes (composed by the driver from the log type "
+                "and text), mpt_connection_assign / mpt_connection_open / mpt_connection_set(\"\") on an open connection (re-open of the "
+                "stream: everything kept, the property clears the wait table; else mpt_connection_close AS PATCHED by "
+                "docs/C12_close_stream_dangling.diff: waiting handlers get NULL, the reply context is released = OUnref of ReplyModel.v with "
+                "a refusing transport, new backend), remoteConv / remoteProperty as functions of the state. A connection gets ONE reply "
+                "context per history: a request arriving after a backend change that released the context is outside the model (not "
+                "generated). MPT_OUTFLAG(Active) survives mpt_connection_close of a stream (only mpt_connection_assign(con, NULL) gets there "
+                "with a message open): modelled as is (later assign/open refused, dispatch answers Retry). "
+                "mpt_command_reserve is also modelled for any id limit (reserve_max, maxid_raw = its switch) and run directly (rsv). "
+                "mptio/stream/stream_input.c (streamMessage/streamReply/streamDefer/streamDispatch/streamConv + stream_reply.c) is modelled "
+                "at correspondence level only (sin_request of ReplyModel.v, sin_request2 / sin_skip / sin_conv / sin_create_ok of "
+                "SinModel.v, no theorem; dispatch without handler AS PATCHED by docs/C12_stream_input_skip.diff); the failure paths of "
+                "mpt_stream_reply behind its first push (the write queue cannot grow = realloc failure) are reachable in the harness "
+                "(sin mode L<n>, mpt_queue_prepare wrapped) but outside the model and not generated: see docs/notes_C12.md Part 4")
     trusted = ["harness/c12_reply.c: the transport is the harness' send callback (logs rd->val[0..len) and the flattened message, "
                "answers from the script); state is read directly from the structures (reply_deferrable.c is #included), "
                "frees are observed by wrapping malloc/free of that file",
@@ -218,6 +248,11 @@ class C12(DiffProperty):
                "reads the reply context, the handles and the wait table straight from the structures (output_remote.c and "
                "reply_deferrable.c are #included)",
                "malloc is assumed to succeed; the harness fills reply_data.val with 0xee after creation",
+               "harness/c12_conn.c (round 3): hands sockets / targets to the object through mpt_connection_assign, mpt_connection_open or a "
+               "small convertable of its own for set_property(\"\"), listens on /tmp/c12conn_<pid>.sock; descriptor 1 is pointed to stderr "
+               "(the default logger prints messages of type 0 to stdout), the case output goes to a duplicate; the harness' answer handler "
+               "returns -3 for an answer that starts with ff; harness/c12_reply.c is linked with -Wl,--wrap=mpt_queue_prepare (refuses "
+               "only in sin mode L<n>, which the generator does not use beyond one case that never hits the limit)",
                "the caller protocol: a context is used only while the caller holds a reference, a deferred handle only until "
                "its reply() consumed it (other uses are use-after-free, outside the interface)"]
     level_text = ("proof: Coq theorems (coq/C12/Properties.v) over the transcribed mechanism, for every id < 2^64, every header width and "
@@ -241,7 +276,17 @@ class C12(DiffProperty):
                   "C12_conn_request_any_nonzero_byte + C12_conn_notification_all_zero (the dispatchers treat a message as a request as "
                   "soon as ONE id byte, in any position, differs from 0 - 0x80/0xff behind the first byte are id content - and only an id "
                   "of zero bytes as a notification), C12_conn_refines_spec (the connection over the "
-                  "mechanism = the connection over the abstract specification). The models are tied to the code on every run by "
+                  "mechanism = the connection over the abstract specification). Round 3: all of these history theorems quantify over the "
+                  "additional operations of the object (references, await without handler, failing answer handlers, next(POLLOUT/POLLHUP), "
+                  "log messages, another backend, convert/property) as well; per operation: C12_conn_gone_handle_silent + "
+                  "C12_conn_gone_refuses (a connection without backend - hang-up, assign(NULL) - reached by any history: a deferred reply puts "
+                  "nothing on any wire, nothing can be registered or pushed), C12_conn_unref_not_last, C12_conn_pollout_silent, "
+                  "C12_conn_hup_keeps_waiters, C12_conn_reset_releases_waiters + C12_conn_clear_calls (another backend through "
+                  "mpt_connection_close: every waiting handler gets NULL exactly once, table empty, no id pending, reply context released, "
+                  "nothing sent), C12_conn_reopen_keeps_context, C12_conn_sync_end_keeps_ids (an answer handler that fails ends "
+                  "mpt_stream_sync without losing a waiter), C12_conn_log_is_one_message, C12_reserve_any_limit + "
+                  "C12_reserve_any_limit_table (mpt_command_reserve for every id limit of its switch). "
+                  "The models are tied to the code on every run by "
                   "differential execution (boundary ids x widths, exhaustive short histories, random histories, connection histories "
                   "over real sockets) under ASan/UBSan with allocation tracking")
     level_note = ("trusted: Coq kernel; hand transcription of the C files (validated by the correspondence run, not verified); "
@@ -249,11 +294,19 @@ class C12(DiffProperty):
                   "(hypothesis wf_op of the reply theorems; the dispatchers never hand an id with the bit set to a handler: proved for the "
                   "connection model, where the arm operation is issued only in the branch without mark). "
                   "A non-final unref of the context detaches the transport (code and specification agree; open requests are then dropped). "
-                  "The connection model describes /repo WITH the patches docs/C12_*.diff (9 defects found when the files were first executed, "
-                  "committed meanwhile; 2 more in files outside the anchors - docs/C12_dgram_shared_buf.diff, docs/C12_assign_stream.diff - "
-                  "not committed yet; replays docs/C12_replay_*.json give VIOLATION on the unpatched tree); until they are committed the "
-                  "generator runs only the connection histories that behave the same with and without them (COMMITTED in props/c12.py: no "
-                  "datagram push after a receive, no stream handed over with mpt_connection_assign). "
+                  "The connection model describes /repo WITH the patches docs/C12_*.diff (11 defects of rounds 1 and 2, committed meanwhile; "
+                  "round 3 found 4 more when the rest of output_remote.c / stream_input.c / command_reserve.c was executed - "
+                  "docs/C12_default_waiter_format.diff (log_reply prints the id with %s: crash on an error answer), "
+                  "docs/C12_stream_input_skip.diff (dispatch without handler consumes the message twice: the input is dead afterwards), "
+                  "docs/C12_dgram_next_pollout.diff (next(POLLOUT) sends the datagram received before back to the peer), "
+                  "docs/C12_close_stream_dangling.diff (a closed stream stays in out.buf and is used as buffer by a datagram socket set "
+                  "afterwards) - not committed yet; replays docs/C12_replay_*.json give VIOLATION on the unpatched tree); until they are "
+                  "committed the generator runs only the histories that behave the same with and without them (COMMITTED in props/c12.py: no "
+                  "answer for a request awaited without handler, no message behind a skipped one on a stream input, no next(POLLOUT) on a "
+                  "datagram socket after a receive, no datagram socket / no close for a connection that has a stream). "
+                  "One reply context per connection history (see modelled). Not covered: realloc failure of the stream write queue "
+                  "(mpt_stream_reply then leaves a partial frame and MPT_STREAMFLAG(MesgActive) behind: docs/C12_replay_reply_enomem.json, "
+                  "outside the assumption 'malloc succeeds', no patch proposed). "
                   "C12_conn_request_answered_once needs the transport to accept (stream: no outgoing message being composed). "
                   "Kernel, COBS codec and the stream/outdata buffering below the connection are executed, not modelled (C01/C02/C13). "
                   "mpt_log output and malloc failure are not covered. "
@@ -269,7 +322,7 @@ class C12(DiffProperty):
     # ------------------------------------------------------------------ structure
     def split(self, case):
         t = case.split()
-        if t[0] not in ("ctx", "sin", "con"):
+        if t[0] not in ("ctx", "sin", "con", "rsv"):
             return t, []
         nh = 5 if t[0] == "ctx" else 3
         hdr, rest = t[:nh], t[nh:]
@@ -288,6 +341,11 @@ class C12(DiffProperty):
         return DiffProperty.compare(self, case, it, mt, st)
 
     def project(self, tok):
+        if self._kind == "rsv":
+            # <slot>:<id>|table: the slot index and the slots not in use are mechanism detail
+            f = tok.split("|")
+            ents = [e for e in f[1].split(",") if e != "-" and not e.endswith("=.")]
+            return f[0].split(":")[-1] + "|" + (",".join(ents) or "-")
         if self._kind == "con":
             # ret|waiter calls|wire|ctx|handles|wait table: slots of the wait table that are not in use are mechanism detail
             f = tok.split("|")
@@ -324,6 +382,8 @@ class C12(DiffProperty):
             yield self.join(hdr, ops[:k] + ops[k + 1:])
         for k in range(1, len(ops)):
             yield self.join(hdr, ops[:k])
+        if hdr[0] == "rsv":
+            return
         if hdr[0] == "con":
             for k, o in enumerate(ops):
                 if o[0] == "dp" and o[1] != "-":
@@ -337,6 +397,8 @@ class C12(DiffProperty):
             return
         if hdr[0] == "sin":
             for k, o in enumerate(ops):
+                if o[0] != "req":
+                    continue
                 if len(o[1]) > 2 * int(hdr[1]) + 2:
                     yield self.join(hdr, ops[:k] + [[o[0], o[1][:-2]] + o[2:]] + ops[k + 1:])
                 if o[2] != "0":
@@ -459,6 +521,18 @@ class C12(DiffProperty):
                         cl.add("con:handler-silent")
             if "cl" in names and "hr" in names[names.index("cl"):]:
                 cl.add("con:handle-after-close")
+            for o in ops:
+                if o[0] in ("as", "sp", "op"):
+                    cl.add("con:backend:%s-%s" % (o[0], o[1]))
+            for k, o in enumerate(ops):
+                if o[0] == "tx" and il and o[1] != "-" and len(o[1]) >= 2 * il + 2 and int(o[1][:2], 16) & 0x80 and o[1][2 * il:2 * il + 2] == "ff":
+                    cl.add("con:answer-handler-fails")
+                if o[0] == "nh" and "hr" in names[k:]:
+                    cl.add("con:handle-after-hangup")
+                if o[0] in ("as", "sp", "op") and "hr" in names[k:]:
+                    cl.add("con:handle-after-backend-change")
+            if "a0" in names and any(c.startswith("con:answer") for c in cl):
+                cl.add("con:answer-with-default-handler")
             if "ps" in names and "hr" in names[names.index("ps"):]:
                 cl.add("con:reply-while-composing")
             for k in con_needs(case):
@@ -467,7 +541,14 @@ class C12(DiffProperty):
         if hdr[0] == "sin":
             cl.add("stream-input")
             il = int(hdr[1])
+            cl.add("sin:mode=" + hdr[2][:1])
+            for k in con_needs(case):
+                cl.add("sin:needs:" + k)
             for o in ops:
+                if o[0] != "req":
+                    cl.add("sin:item:" + o[0])
+                if o[0] in ("scv", "srf"):
+                    continue
                 b = bytes.fromhex(o[1]) if o[1] != "-" else b""
                 if il and len(b) >= il:
                     if b[0] & 0x80:
@@ -476,11 +557,20 @@ class C12(DiffProperty):
                         cl.add("sin:zero-id")
                     else:
                         cl.add("sin:request")
-                        cl.add("sin:replies=%s" % o[2])
+                        if o[0] == "req":
+                            cl.add("sin:replies=%s" % o[2])
                 elif il:
                     cl.add("sin:short-message")
             if hdr[2] == "0":
                 cl.add("sin:read-only")
+            return cl
+        if hdr[0] == "sinx":
+            cl.add("stream-input-create")
+            return cl
+        if hdr[0] == "rsv":
+            cl.add("reserve:max=" + hdr[1])
+            if any(o[0].startswith("f") for o in ops):
+                cl.add("reserve:with-released-slots")
             return cl
         names = [o[0] for o in ops]
         if "arm" not in names and "armz" not in names:
@@ -651,7 +741,7 @@ class C12(DiffProperty):
         h2 = vcheck.build_harness("c12_conn.c", self.libs)
         mx = vcheck.build_model(self.mlname, self.driver, self.extract_vo)
         ided = ["c%d %s" % (i, c) for i, c in enumerate(cases)]
-        iscon = lambda l: l.split(None, 2)[1] == "con"
+        iscon = lambda l: l.split(None, 2)[1] in ("con", "rsv")
         I, errs = {}, []
         for exe, sub, tag in ((h1, [l for l in ided if not iscon(l)], "impl"), (h2, [l for l in ided if iscon(l)], "implcon")):
             if sub:
@@ -924,7 +1014,8 @@ class C12(DiffProperty):
                 elif r < 0.30:
                     seq = [rng.choice([0, max(lv + [v]) + 1, 0x7f, 2 ** (8 * il - 1) - 1]), v]      # an id nobody waits for
                 for x in seq:
-                    ops.extend(["tx", hx(marked(x) + [rng.randrange(0x61, 0x7b)])])
+                    # now and then an answer that makes the harness' handler fail (ff): dispatch result, early end of sync
+                    ops.extend(["tx", hx(marked(x) + [0xff if rng.random() < 0.08 else rng.randrange(0x61, 0x7b)])])
                     pend.append(x)
                     sent += 1
                     if not batch:
@@ -1032,7 +1123,7 @@ class C12(DiffProperty):
               "con s 2 rf rf cl tx 00014142 dp r61 0 cl aw 51 cl hr 0 null"]
         # answers for the default handler (log_reply): Answer with code 0 / <0 / >0, short, Output, other type, empty
         for m in "sd":
-            for a in ("0100", "01ff", "0105", "01", "0410", "04", "414243", "-"):
+            for a in ("0100", "01ff", "0105", "01", "0010", "0083", "0000", "00", "0410", "04", "414243", "-"):
                 cs.append("con %s 2 a0 5152 tx 8001%s dp - 0 aw 53" % (m, a if a != "-" else ""))
             cs += ["con %s 2 a0 5152 tx 80010100 sy" % m,
                    "con %s 2 a0 5152 cl" % m,
@@ -1127,7 +1218,7 @@ class C12(DiffProperty):
                     m = idbytes(v % 2 ** (8 * il - 1))
                     m[0] |= 0x80
                     # what the default handler looks at: message type and code; ff: the harness' waiter fails
-                    m += rng.choice([[1, 0], [1, 0xff], [1, 5], [1], [4, 0x10], [4], [0xff], [0xff, 0x41], payload(), []])
+                    m += rng.choice([[1, 0], [1, 0xff], [1, 5], [1], [0, 0x10], [0, 0], [0], [4, 0x10], [0xff], [0xff, 0x41], payload(), []])
                 else:
                     m = [0x80] if dg or il < 2 else [rng.randrange(256) for _ in range(il - 1)]
                 if not dg and not m:
@@ -1191,6 +1282,12 @@ class C12(DiffProperty):
                 if k == "a" and not COMMITTED["assign_stream"]:
                     continue
                 ops += [o, k]
+                # whether the change is refused depends on an outgoing message being open, which is only estimated here:
+                # the restrictions are applied for both outcomes
+                if k in ("x", "D") or (o == "op" and k == "d"):
+                    notx = True         # no socket of the harness any more: stays for the rest of the history
+                if hasctx and not (k == "a" and not dg and not gone and o != "op"):
+                    noreq = True
                 if (active or stuck) and not (o == "as" and k == "x"):
                     continue        # refused: a message is being composed (mpt_connection_assign(con, NULL) closes first)
                 if active and not dg and not gone:
@@ -1205,7 +1302,6 @@ class C12(DiffProperty):
                     gone = k == "x"
                     if k != "x":
                         dg = k in ("d", "D") or (o == "op" and k == "d")
-                    notx = k in ("x", "D") or (o == "op" and k == "d")
                 elif o == "sp":
                     out_ids, nxt = [], 1
                 pend = 0
@@ -1247,6 +1343,25 @@ class C12(DiffProperty):
                 toks += ["req", hx(msg), str(rng.choice([0, 1, 2])), rng.choice(["6f6b", "null", "-"]), rng.choice(["6f6c", "null"]),
                          str(rng.choice([0, 0, 3, -1, -16]))]
         return " ".join(toks)
+
+    def gen_rsv(self, rng, tier):
+        """direct calls of mpt_command_reserve(arr, max) for every arm of its switch (max 0..9, 16): reserve / release a slot"""
+        cs = []
+        for mx in (0, 1, 2, 3, 4, 5, 6, 7, 8, 9, 16):
+            cs.append("rsv %d r r r f0 r f1 f2 r r" % mx)
+            for _ in range(6 if tier == "quick" else 200):
+                ops, n = [], 0
+                for _ in range(rng.choice([3, 6, 12, 20])):
+                    if n and rng.random() < 0.4:
+                        ops.append("f%d" % rng.randrange(n + 1))
+                    else:
+                        ops.append("r")
+                        n = min(n + 1, 12)
+                cs.append("rsv %d %s" % (mx, " ".join(ops)))
+        # the id space of a one-byte header: 127 ids, then refused; released ids are handed out again (lowest first)
+        cs.append("rsv 1 " + " ".join(["r"] * 129))
+        cs.append("rsv 1 " + " ".join(["r"] * 127) + " f3 f10 f126 r r r r f0 r")
+        return cs
 
     def gen_sinx(self):
         """arguments of mpt_stream_input: id width 0 / 255 / 256 / 1000, mode Read / Write / RdWr (+ buffer flags), coding 0 / COBS, bad descriptor"""
@@ -1304,6 +1419,7 @@ class C12(DiffProperty):
         for _ in range(600 if tier == "quick" else 20000):
             cases.append(self.gen_sin(rng))
         cases += self.gen_sinx()
+        cases += self.gen_rsv(rng, tier)
         sino = ["sin 2 1 scv in scv fmt scv meta scv sock scv bad srf req 00014142 1 6f6b null 0",
                 "sin 2 1 rqd 00014142 6f6b 0 rq0 00024142 req 00034142 1 61 null 0",
                 "sin 2 2 req 00014142 1 6f6b null 0 req 00024142 0 null null -3 req 00034142 2 6f6b 6f6c 0",
